@@ -18,6 +18,9 @@ def gen(ctx):
     for dt in ("uint8", "int8", "int64", "uint16"):
         yield dict(kind="rev", hist=[[0, 0, 0, 1, 1, 0, 1, 1, 0]], prev=[0, 0, 0, 1, 1, 0, 1, 1, 0], R=90, T=6, form="view0", dtype=dt)
         yield dict(kind="rev", hist=[[0, 0, 0, 1, 1, 0, 1, 1, 0]], prev=[1, 0, 0, 1, 0, 0, 1, 1, 0], R=30, T=5, form="array", dtype=dt)
+    for T in (70, 131, 260):
+        row = [rng.randint(0, 1) for _ in range(7)]
+        yield dict(kind="rev", hist=[row], prev=[rng.randint(0, 1) for _ in range(7)], R=rng.choice([90, 30, 150, 214]), T=T, form="array", dtype="int32")
     for _ in range(ctx.n(600, 6000)):
         N = rng.randint(1, 12)
         row = [rng.randint(0, 1) for _ in range(N)]
